@@ -4,6 +4,7 @@ property (`u`: a true result is exactly `[1]`) carried along, proved for every w
 fragment by induction over the typing rules (`shape`).  Limits off.  Core Lean only.
 -/
 import MsVerif.Lemmas.TypeSoundArgsThm
+import MsVerif.Lemmas.TypeSoundNum
 
 namespace MsVerif.TypeSound
 open MsVerif MsVerif.Script
@@ -28,6 +29,67 @@ theorem Post.W {t : Corr} {s s' : List Bytes} (hb : t.base = .W) :
     Post t s s' ↔ ∃ x tl v n, s = x :: tl ∧ (s' = x :: v :: tl.drop n ∨ s' = v :: x :: tl.drop n) ∧
       (t.unit = true → castToBool v = true → v = [1]) := by
   simp only [Post, hb]
+
+/-- `Post` with an explicit bound `N` on the number `n` of input elements that were removed -/
+def PostN (t : Corr) (N : Nat) (s s' : List Bytes) : Prop :=
+  match t.base with
+  | .B => ∃ v n, n ≤ N ∧ s' = v :: s.drop n ∧ (t.unit = true → castToBool v = true → v = [1])
+  | .V => ∃ n, n ≤ N ∧ s' = s.drop n
+  | .K => ∃ k n, n ≤ N ∧ s' = k :: s.drop n
+  | .W => ∃ x tl v n, n ≤ N ∧ s = x :: tl ∧ (s' = x :: v :: tl.drop n ∨ s' = v :: x :: tl.drop n) ∧
+      (t.unit = true → castToBool v = true → v = [1])
+
+theorem PostN.B {t : Corr} {N : Nat} {s s' : List Bytes} (hb : t.base = .B) :
+    PostN t N s s' ↔ ∃ v n, n ≤ N ∧ s' = v :: s.drop n ∧ (t.unit = true → castToBool v = true → v = [1]) := by
+  simp only [PostN, hb]
+theorem PostN.V {t : Corr} {N : Nat} {s s' : List Bytes} (hb : t.base = .V) :
+    PostN t N s s' ↔ ∃ n, n ≤ N ∧ s' = s.drop n := by
+  simp only [PostN, hb]
+theorem PostN.K {t : Corr} {N : Nat} {s s' : List Bytes} (hb : t.base = .K) :
+    PostN t N s s' ↔ ∃ k n, n ≤ N ∧ s' = k :: s.drop n := by
+  simp only [PostN, hb]
+theorem PostN.W {t : Corr} {N : Nat} {s s' : List Bytes} (hb : t.base = .W) :
+    PostN t N s s' ↔ ∃ x tl v n, n ≤ N ∧ s = x :: tl ∧ (s' = x :: v :: tl.drop n ∨ s' = v :: x :: tl.drop n) ∧
+      (t.unit = true → castToBool v = true → v = [1]) := by
+  simp only [PostN, hb]
+
+theorem PostN.toPost {t : Corr} {N : Nat} {s s' : List Bytes} (h : PostN t N s s') : Post t s s' := by
+  cases hb : t.base with
+  | B => obtain ⟨v, n, _, e, u⟩ := (PostN.B hb).1 h; exact (Post.B hb).2 ⟨v, n, e, u⟩
+  | V => obtain ⟨n, _, e⟩ := (PostN.V hb).1 h; exact (Post.V hb).2 ⟨n, e⟩
+  | K => obtain ⟨k, n, _, e⟩ := (PostN.K hb).1 h; exact (Post.K hb).2 ⟨k, n, e⟩
+  | W => obtain ⟨x, tl, v, n, _, e1, e2, u⟩ := (PostN.W hb).1 h; exact (Post.W hb).2 ⟨x, tl, v, n, e1, e2, u⟩
+
+mutual
+/-- an upper bound, computable from the AST, on the number of input elements a fragment removes
+(for a W fragment: below the element it finds on top) -/
+def maxArgs : Ms → Nat
+  | .tru | .fls | .after _ | .older _ | .pkK _ => 0
+  | .pkH _ | .rawPkH _ | .hash _ _ => 1
+  | .multi k _ | .sortedMulti k _ => k + 1
+  | .multiA _ ks | .sortedMultiA _ ks => max 1 ks.length
+  | .alt x | .verify x | .zeroNotEqual x => maxArgs x
+  | .swap _ | .dupIf _ => 1
+  | .check x => maxArgs x + 1
+  | .nonZero x => max 1 (maxArgs x)
+  | .andV l r | .andB l r | .orB l r | .orD l r | .orC l r => maxArgs l + maxArgs r
+  | .andOr a b c => maxArgs a + max (maxArgs b) (maxArgs c)
+  | .orI l r => 1 + max (maxArgs l) (maxArgs r)
+  | .thresh _ xs => maxArgsL xs
+def maxArgsL : MsList → Nat
+  | .nil => 0
+  | .cons x xs => maxArgs x + maxArgsL xs
+end
+
+/-- `pushInt k` always pushes the minimal encoding of `k` -/
+theorem intBytes_eq_numEncode (k : Nat) : intBytes k = numEncode (k : Int) := by
+  unfold intBytes
+  split
+  · rename_i h
+    have : ∀ j : Fin 17, (if j.val = 0 then ([] : Bytes) else [UInt8.ofNat j.val]) = numEncode ((j.val : Nat) : Int) := by
+      decide
+    exact this ⟨k, by omega⟩
+  · rfl
 
 theorem drop_drop' (s : List Bytes) (n m : Nat) : (s.drop n).drop m = s.drop (n + m) := by
   rw [List.drop_drop]
@@ -136,13 +198,13 @@ theorem multisig_ok {env : Env} {c c' : Core} {v : Bool} (h : multisig env c v =
 theorem cms_ok {env : Env} {c c' : Core} (h : opc env .checkmultisig c = .ok c') :
     ∃ (nB : Bytes) (r : List Bytes) (nI : Int) (mB : Bytes) (r1 : List Bytes) (mI : Int) (dummy : Bytes) (r2 : List Bytes) (b : Bool), c.stack = nB :: r ∧ numDecode env.flags.minimalNum 4 nB = some nI ∧
       0 ≤ nI ∧ r.drop nI.toNat = mB :: r1 ∧ r1.drop mI.toNat = dummy :: r2 ∧ c'.alt = c.alt ∧
-      c'.stack = boolBytes b :: r2 := by
+      c'.stack = boolBytes b :: r2 ∧ numDecode env.flags.minimalNum 4 mB = some mI := by
   obtain ⟨c1, hs, ha, h⟩ := opc_ok h
   rw [execOpc_cms] at h
-  obtain ⟨nB, r, nI, mB, r1, mI, dummy, r2, h1, h2, h3, h4, _, h6, h7, h8⟩ := multisig_ok h
+  obtain ⟨nB, r, nI, mB, r1, mI, dummy, r2, h1, h2, h3, h4, h5, h6, h7, h8⟩ := multisig_ok h
   simp only [Bool.false_eq_true, if_false] at h8
   obtain ⟨b, hb⟩ := h8
-  exact ⟨nB, r, nI, mB, r1, mI, dummy, r2, b, by rw [← hs, h1], h2, h3, h4, h6, h7.trans ha, hb⟩
+  exact ⟨nB, r, nI, mB, r1, mI, dummy, r2, b, by rw [← hs, h1], h2, h3, h4, h6, h7.trans ha, hb, h5⟩
 
 theorem drop_succ_of_drop_cons {s : List Bytes} {m : Nat} {d : Bytes} {r : List Bytes}
     (h : s.drop m = d :: r) : s.drop (m + 1) = r := by
@@ -152,7 +214,7 @@ theorem drop_succ_of_drop_cons {s : List Bytes} {m : Nat} {d : Bytes} {r : List 
 theorem multi_shape {env : Env} (ke : KeyEnv) (k : Nat) (kl : List Key) (hk : kl.length ≤ 20) {c c' : Core}
     (h : seqOps env ([pushInt k] ++ kl.map (fun pk => Op.push (ke.ser pk)) ++ [pushInt kl.length, .code .checkmultisig]) c
       = .ok c') :
-    c'.alt = c.alt ∧ ∃ b m, c'.stack = boolBytes b :: c.stack.drop m := by
+    c'.alt = c.alt ∧ ∃ b m, m ≤ k + 1 ∧ c'.stack = boolBytes b :: c.stack.drop m := by
   obtain ⟨c2, h12, h3⟩ := seqOps_append_ok h
   obtain ⟨c1, h1, h2⟩ := seqOps_cons_ok (show seqOps env (pushInt k :: kl.map (fun pk => Op.push (ke.ser pk))) c = .ok c2 from h12)
   obtain ⟨hs1, ha1⟩ := pushInt_ok h1
@@ -164,7 +226,7 @@ theorem multi_shape {env : Env} (ke : KeyEnv) (k : Nat) (kl : List Key) (hk : kl
   obtain ⟨hs3, ha3⟩ := pushInt_ok h4
   obtain ⟨c4, h6, h7⟩ := seqOps_cons_ok h5
   cases seqOps_nil_ok h7
-  obtain ⟨nB, r, nI, mB, r1, mI, dummy, r2, b, e1, e2, e3, e4, e5, e6, e7⟩ := cms_ok h6
+  obtain ⟨nB, r, nI, mB, r1, mI, dummy, r2, b, e1, e2, e3, e4, e5, e6, e7, e8⟩ := cms_ok h6
   rw [hs3, hs2, hs1] at e1
   simp only [List.cons.injEq] at e1
   obtain ⟨rfl, rfl⟩ := e1
@@ -176,8 +238,11 @@ theorem multi_shape {env : Env} (ke : KeyEnv) (k : Nat) (kl : List Key) (hk : kl
   rw [show (Int.ofNat kl.length).toNat = ((kl.map ke.ser).reverse).length from by rw [hlen]; rfl,
     List.drop_left] at e4
   simp only [List.cons.injEq] at e4
-  obtain ⟨_, rfl⟩ := e4
-  refine ⟨by rw [e6, ha3, ha2, ha1], b, mI.toNat + 1, ?_⟩
+  obtain ⟨rfl, rfl⟩ := e4
+  have hmk : mI = (k : Int) := by
+    rw [intBytes_eq_numEncode] at e8
+    exact decode_encode_nat e8
+  refine ⟨by rw [e6, ha3, ha2, ha1], b, mI.toNat + 1, by omega, ?_⟩
   rw [e7, drop_succ_of_drop_cons e5]
 
 /-- the `<pk> OP_CHECKSIGADD` repetitions of `multi_a` -/
@@ -202,7 +267,7 @@ theorem csa_loop_ok {env : Env} (ke : KeyEnv) (ks : List Key) {c c' : Core}
 
 theorem multiA_shape {env : Env} (ke : KeyEnv) (k : Nat) (kl : List Key) {c c' : Core}
     (h : seqOps env (encodeMultiA ke kl ++ [pushInt k, .code .numequal]) c = .ok c') :
-    c'.alt = c.alt ∧ ∃ b m, c'.stack = boolBytes b :: c.stack.drop m := by
+    c'.alt = c.alt ∧ ∃ b m, m ≤ max 1 kl.length ∧ c'.stack = boolBytes b :: c.stack.drop m := by
   obtain ⟨c2, h1, h2⟩ := seqOps_append_ok h
   obtain ⟨c3, h3, h4⟩ := seqOps_cons_ok h2
   obtain ⟨hs3, ha3⟩ := pushInt_ok h3
@@ -216,7 +281,7 @@ theorem multiA_shape {env : Env} (ke : KeyEnv) (k : Nat) (kl : List Key) {c c' :
   | nil =>
     simp only [encodeMultiA] at h1
     cases seqOps_nil_ok h1
-    exact ⟨by rw [e3, ha3], v, 1, by rw [e2, e1]; rfl⟩
+    exact ⟨by rw [e3, ha3], v, 1, by simp, by rw [e2, e1]; rfl⟩
   | cons k0 ks =>
     simp only [encodeMultiA] at h1
     obtain ⟨c5, h7, h8⟩ := seqOps_cons_ok (show seqOps env (Op.push (ke.ser k0) :: .code .checksig ::
@@ -231,7 +296,7 @@ theorem multiA_shape {env : Env} (ke : KeyEnv) (k : Nat) (kl : List Key) {c c' :
     rw [g1] at e1
     simp only [List.cons.injEq] at e1
     obtain ⟨_, e1⟩ := e1
-    refine ⟨by rw [e3, ha3, g2, f3, ha5], v, ks.length + 1, ?_⟩
+    refine ⟨by rw [e3, ha3, g2, f3, ha5], v, ks.length + 1, by simp only [List.length_cons]; omega, ?_⟩
     rw [e2, ← e1, f1]
     rfl
 
